@@ -659,7 +659,7 @@ def small_file(rng, limit):
     return f
 
 
-def classify_c07(intact, got, exhausted):
+def classify_c07(intact, got, exhausted, tail=b'\n'):
     """None if got is a prefix of intact; else (signature, what)."""
     for i, g in enumerate(got):
         if i < len(intact) and sl.record_sx(intact[i]) == sl.record_sx(g):
@@ -671,8 +671,10 @@ def classify_c07(intact, got, exhausted):
             ob = {k: v for k, v in b['options'].items() if k != 'length'}
             same_opts = oa == ob
             for key in ('text', 'diff'):
+                # the recorded finding is about a stream that ends RIGHT AFTER one of the section's newlines; a shortened
+                # section yielded when the stream ends anywhere else is a different failure
                 if key in a and key in b and type(a[key]) is type(b[key]) and same_opts and \
-                        a[key].startswith(b[key]) and 0 < len(b[key]) < len(a[key]):
+                        a[key].startswith(b[key]) and 0 < len(b[key]) < len(a[key]) and tail[-1:] in (b'\n', b'\x00'):
                     return ('short-read-accepted',
                             'record %d (%s) was yielded with content cut short (%d of %d units) because the stream '
                             'ended inside it' % (i, g['section'], len(b[key]), len(a[key])))
@@ -704,6 +706,25 @@ class Truncate(Family):
                 for v in [str(true + d) for d in (-3, -2, -1, 1, 2, 3)] + ['0', '-1', 'abc', '1_0', str(2 ** 70),
                                                                           str(true + 10 ** 6)]:
                     yield dict(kind='length', file=f, at=si, value=v)
+            # text sections under stateful codecs (the model discards them; the prefix oracle runs on the implementation):
+            # every cut point, including right after a shift sequence
+            if i < 4:
+                codec, text = [('utf-7', 'Summary\n\u00e9t\u00e9 2021\nlast\n'), ('iso2022_jp', 'Summary\n\u3042\u3044\u3046\nlast\n'),
+                               ('hz', 'Summary\n\u4f60\u597d\nlast\n'), ('iso2022_kr', 'Summary\n\ud55c\uae00\nlast\n')][i]
+                try:
+                    body = text.encode(codec)
+                except (LookupError, UnicodeError):
+                    body = None
+                if body:
+                    sf = dict(crlf=False, trailing=[], sections=[
+                        dict(id='diffx', opts=[['version', '1.0'], ['encoding', 'utf-8']], blank=[], content=None, expect={}, enc=None, ast=None),
+                        dict(id='.preamble', opts=[['encoding', codec], ['length', str(len(body))]], blank=[], content=body.hex(),
+                             expect=dict(text=text), enc=codec, ast=None),
+                        dict(id='.change', opts=[], blank=[], content=None, expect={}, enc=None, ast=None),
+                        dict(id='..file', opts=[], blank=[], content=None, expect={}, enc=None, ast=None),
+                        dict(id='...meta', opts=[['length', '3']], blank=[], content=b'{}\n'.hex(), expect=dict(metadata={}), enc='utf-8', ast=None)])
+                    for k in range(len(gf.render(sf)) + 1):
+                        yield dict(kind='cut', file=sf, cut=k)
             # framing of LARGE content (sizes around the usual buffer sizes and around every size harvested from the code
             # under test): exactly `length` bytes, then the next header
             import sizes
@@ -811,7 +832,7 @@ class Truncate(Family):
             return out
         intact = self._intact(c['file'])
         if c['kind'] == 'cut':
-            r = classify_c07(intact, records, exhausted=True)
+            r = classify_c07(intact, records, exhausted=True, tail=data[-4:])
             if r:
                 out.append(('C07', r[0], 'file cut at byte %d of %d: %s' % (c['cut'], len(gf.render(c['file'])), r[1])))
         else:
@@ -936,6 +957,17 @@ class Order(Family):
                 seq.append(rng.choice(IDS24) if rng.random() < 0.6 else rng.choice(spec.MAY_FOLLOW[seq[-1]]))
                 yield dict(kind='long-header', ids=seq, pad_last=t0)
                 yield dict(kind='long-header', ids=seq + [rng.choice(IDS24)], pad_last=t0)
+        # other stream kinds (BufferedReader, real file): the last header starting just before / at the stream's buffer edge
+        import io as _io
+        for wrap in ('buffered', 'file'):
+            for k in (1, 2, 9, 10, 40, 95, 96, 0):
+                for _ in range(2):
+                    seq = ['diffx']
+                    for _ in range(rng.randint(1, 3)):
+                        seq.append(rng.choice(spec.MAY_FOLLOW[seq[-1]]))
+                    seq.append(rng.choice(IDS24))
+                    yield dict(kind='stream-kind', ids=seq, shift_to=_io.DEFAULT_BUFFER_SIZE - k, wrap=wrap)
+                    yield dict(kind='stream-kind', ids=seq, shift_to=2 * _io.DEFAULT_BUFFER_SIZE - k, wrap=wrap)
         # histories: several files read one after the other IN ONE PROCESS (the case carries the whole history, so a replay
         # reproduces it): what an earlier file made the reader do must not change the verdict on a later one
         for i in range(150 if tier == 'quick' else 3000):
@@ -961,9 +993,19 @@ class Order(Family):
             k = c['pad_last'] - (len(line) + len(sep) + 1)
             if k >= 1:
                 parts[-1] = line + sep + b'p' * k + last[i:]
+        if c.get('shift_to') and len(parts) >= 2:
+            # the FIRST header padded so that the last header starts at an exact file offset
+            base = sum(len(x) for x in parts[:-1])
+            need = c['shift_to'] - base
+            i = parts[0].index(b'\n')
+            if need >= 7:
+                parts[0] = parts[0][:i] + b', pad=' + b'p' * (need - 6) + parts[0][i:]
         return b''.join(parts) + c.get('extra', '').encode()
 
     def _impl(self, c):
+        if '_impl' not in c and c.get('wrap'):
+            data = self._data(c)
+            c['_impl'] = (data,) + sl.run_reader(data, wrap=c['wrap'])
         if '_impl' not in c:
             if c['kind'] == 'history':
                 # all but the last file are read first, in this same process; the observation is the last file's
@@ -984,7 +1026,7 @@ class Order(Family):
         return sl.collapse_exc(line)
 
     def key(self, c):
-        return json.dumps([c['kind'], c.get('history') or c['ids'], c.get('blanks'), c.get('extra'), c.get('pad_last')])
+        return json.dumps([c['kind'], c.get('history') or c['ids'], c.get('blanks'), c.get('extra'), c.get('pad_last'), c.get('shift_to'), c.get('wrap')])
 
     def nontrivial(self, c):
         return len(c['ids']) >= 2
@@ -1045,6 +1087,11 @@ def spec_parse_header(line):
             else:
                 opts[k.decode()] = v.decode()
     return (m.group(1) + m.group(2)).decode(), opts
+
+
+def re_key(b):
+    import re as _r
+    return _r.fullmatch(rb'[A-Za-z][A-Za-z0-9_-]*', b) is not None
 
 
 class HeaderFam(Family):
@@ -1111,6 +1158,13 @@ class HeaderFam(Family):
             yield dict(kind='long', line=hx(b'#.change: k=' + b'v' * n + b'+'))
             yield dict(kind='long', line=hx(b'#.change: ' + b', '.join(b'k%d=%d' % (j, j) for j in range(n // 8 + 1))))
             yield dict(kind='long', line=hx(b'#.change: k=1' + b' ' * n))
+        # a header whose key / value is a token that an EARLIER header of the same type used in the other role
+        for tok in (b'7', b'1.0', b'/x', b'_a', b'-', b'a/b', b'007', b'x'):
+            for other in (b'v', b'1'):
+                yield dict(kind='two-headers', prelude=hx(b'#.change: rev=' + tok), line=hx(b'#.change: ' + tok + b'=' + other))
+                yield dict(kind='two-headers', prelude=hx(b'#.change: ' + (tok if re_key(tok) else b'k') + b'=' + other),
+                           line=hx(b'#.change: ' + other + b'=' + tok))
+                yield dict(kind='two-headers', prelude=hx(b'#.change: rev=' + tok), line=hx(b'#.change: rev=' + tok + b', ' + tok + b'=' + tok))
         # repeated keys: EVERY pair must match the grammar, not only the one whose value survives (last one wins)
         bads = [b'+', b'a:b', b'a=b', b'#', b'\xc3\xa9', b'a+b', b'1:0']
         goods = [b'v', b'1', b'a/b']
@@ -1128,7 +1182,11 @@ class HeaderFam(Family):
             if c.get('crlf'):
                 data = self.PREFIX[:-1] + b'\r\n' + unhx(c['line']) + b'\r\n'
             else:
-                data = self.PREFIX + unhx(c['line']) + b'\n'
+                # an optional earlier, valid header of the same type (with the sections that make the second one legal)
+                pre = b''
+                if c.get('prelude'):
+                    pre = unhx(c['prelude']) + b'\n#..file:\n#...meta: length=3\n{}\n'
+                data = self.PREFIX + pre + unhx(c['line']) + b'\n'
             c['_impl'] = (data,) + sl.run_reader(data)
         return c['_impl']
 
@@ -1156,6 +1214,11 @@ class HeaderFam(Family):
         if term[0] == 'exc':
             return [('C11', 'other-exception', 'header %r raised %s' % (line, term[1]))]
         want = spec_parse_header(line)
+        skip = 3 if c.get('prelude') else 0        # records of the earlier change, its file and metadata
+        if skip:
+            if len(records) < 1 + skip:
+                return [('C11', 'valid-header-rejected', 'the earlier valid header %r was not read: %r' % (unhx(c['prelude']), term[:4]))]
+            records = records[:1] + records[1 + skip:]
         accepted = len(records) == 2 and term[0] == 'end'
         if want is not None and want[0] == '.change':
             if not accepted:
@@ -1295,7 +1358,10 @@ class Nesting(Family):
         import itertools
         maxt = 3 if tier == 'quick' else 4
         decls = [None] + MARK[:2] if tier == 'quick' else [None] + MARK
-        text = 'é€\n' if False else '\xe9\xff\n'
+        text = '\xe9\xff\n'
+        # texts whose bytes in an 8-bit codec spell another codec's byte order mark (EF BB BF, FF FE, FE FF): content,
+        # never a signature; used for every other history
+        bomlike = ['\xef\xbb\xbfRelease notes caf\xe9\n', '\xff\xfeab\n', '\xfe\xff\n', '\xef\xbb\xbf\n']
 
         def histories(n):
             # sequences of 'c' / 'f' where the first is 'c'
@@ -1323,6 +1389,10 @@ class Nesting(Family):
                             calls.append(['new_file', None])
                             calls.append(['write_meta', {'d': {'t': text}}, None, 'omitted'])
                         yield dict(kind='wellformed', main='utf-8', calls=calls, hist=''.join(seq))
+                        if 'latin-1' in ds or own is None:
+                            alt = bomlike[(len(calls) + len(seq)) % len(bomlike)]
+                            calls2 = [[c[0], (sl.S(alt) if c[0] == 'write_preamble' else c[1])] + c[2:] for c in calls]
+                            yield dict(kind='wellformed', main='latin-1', calls=calls2, hist=''.join(seq), bomlike=True)
 
     @staticmethod
     def _last_container(calls):
